@@ -1,5 +1,5 @@
 """C07 — communication/computation overlap is the exact time ratio."""
-from harness.common import KCLASS, close, multisets, provenance, sand
+from harness.common import precalls, KCLASS, close, multisets, provenance, sand
 from oracles.intervals import both_len, union_len
 from symx import tracegen as TG
 
@@ -34,6 +34,8 @@ def skeletons(tier):
             out.append({"id": f"r1-{w}", "ranks": {"0": w}})
     for w in ["CN", "NC"]:
         out.append({"id": f"r1-{w}-stream0", "ranks": {"0": w}, "params": {"stream0": True}})
+    for pre in ("temporal", "kernels", "idle"):
+        out.append({"id": f"r1-CN-after-{pre}", "ranks": {"0": "CN"}, "params": {"pre": [pre]}})
     if tier == "quick":
         # a long interval containing a short one and overlapping a later one (the shape in which a missing running
         # maximum in the interval merge matters); the shape is assumed, the times inside it are free
@@ -76,6 +78,7 @@ def run(ctx):
             (a0, a1), (b0, b1), (c0, c1) = same
             ctx.assume(sand(a0 <= b0, b1 <= c0, c0 < a1, b0 <= b1))
     ta = ctx.open(events)
+    precalls(ctx, ta)
     res = ta.get_comm_comp_overlap(visualize=False)
     rk = ctx.cells(res["rank"])
     pct = ctx.cells(res["comp_comm_overlap_pctg"])
